@@ -7,6 +7,7 @@ package trec
 
 import (
 	"context"
+	"sync/atomic"
 	"errors"
 	"fmt"
 	"iter"
@@ -73,6 +74,11 @@ type Case struct {
 	FailUpdate map[int][]bool `json:"failUpdate,omitempty"`
 	FailDelete map[int][]bool `json:"failDelete,omitempty"`
 	Inject     []Inj          `json:"inject,omitempty"` // consumed call by call (cyclic off: after the list, no injection)
+	// HookInject: user writes performed at the wtxn.beforeLock hook of write
+	// transactions opened by the reconciler's own goroutines (status commit,
+	// refresher, ...), i.e. after they decided to write and before they hold
+	// the table lock. Consumed one per such transaction; Kind < 0 = none.
+	HookInject []Step `json:"hookInject,omitempty"`
 	Waits      []Wait         `json:"waits,omitempty"`
 }
 
@@ -180,6 +186,10 @@ type world struct {
 	initialized bool
 	pruneCalls []pruneObs
 	probes     []probeObs
+	started    atomic.Bool
+	hookBusy   map[uint64]bool
+	hookIdx    int
+	hookInjected int
 	viol     []string // violations detected inside mocks/hooks
 	inflight int
 }
@@ -339,6 +349,28 @@ func (w *world) probe() {
 // ------------------------------------------------------------------ hook: record every committed state
 
 func (w *world) onHook(point string, db *statedb.DB) {
+	if point == "wtxn.beforeLock" && w.started.Load() {
+		g := gid()
+		w.mu.Lock()
+		mine := w.userG == g || w.hookBusy[g]
+		var st *Step
+		if !mine && w.hookIdx < len(w.c.HookInject) {
+			st = &w.c.HookInject[w.hookIdx]
+			w.hookIdx++
+		}
+		if st != nil && st.Kind >= 0 {
+			w.hookBusy[g] = true
+		}
+		w.mu.Unlock()
+		if st != nil && st.Kind >= 0 {
+			w.apply(st.Kind, uint64(st.ID))
+			w.mu.Lock()
+			delete(w.hookBusy, g)
+			w.hookInjected++
+			w.mu.Unlock()
+		}
+		return
+	}
 	if point != "commit.rootStored" || w.table == nil {
 		return
 	}
@@ -513,7 +545,7 @@ func run(t *testing.T, c Case, check func(w *world) (string, error)) (res result
 }
 
 func runInBubble(c Case, check func(w *world) (string, error)) (res result) {
-	w := &world{c: c, start: time.Now(), last: map[uint64]version{}, target: map[uint64]int{}, lastOpOK: map[uint64]string{}, gens: map[uint64]int{}, failU: map[int][]bool{}, failD: map[int][]bool{}}
+	w := &world{c: c, start: time.Now(), last: map[uint64]version{}, target: map[uint64]int{}, lastOpOK: map[uint64]string{}, gens: map[uint64]int{}, failU: map[int][]bool{}, failD: map[int][]bool{}, hookBusy: map[uint64]bool{}}
 	for k, v := range c.FailUpdate {
 		w.failU[k] = append([]bool(nil), v...)
 	}
@@ -579,6 +611,7 @@ func runInBubble(c Case, check func(w *world) (string, error)) (res result) {
 		res.sig, res.err = "infra", fmt.Errorf("hive start: %v", err)
 		return
 	}
+	w.started.Store(true)
 	stopped := false
 	stop := func() {
 		if !stopped {
@@ -681,6 +714,9 @@ func classify(w *world) ([]string, bool) {
 				cl["write_while_op_in_flight"] = true
 			}
 		}
+	}
+	if w.hookInjected > 0 {
+		cl["write_injected_before_reconciler_txn"] = true
 	}
 	if len(w.gens) > max(1, w.c.RoundSize) {
 		cl["more_objects_than_round_size"] = true
